@@ -1,11 +1,11 @@
 #include "../common/props.hpp"
 namespace vf {
 #define DECL(id) CaseResult run##id(const Case &, RunCtx &); extern const char *nt##id;
-DECL(C01) DECL(C02) DECL(C03) DECL(C04) DECL(C05) DECL(C06) DECL(C07) DECL(C08) DECL(C09) DECL(C10) DECL(C11) DECL(C12) DECL(C13) DECL(C16) DECL(C17)
+DECL(C01) DECL(C02) DECL(C03) DECL(C04) DECL(C05) DECL(C06) DECL(C07) DECL(C08) DECL(C09) DECL(C10) DECL(C11) DECL(C12) DECL(C13) DECL(C14) DECL(C15) DECL(C16) DECL(C17)
 #undef DECL
 #define ENT(id) {#id, run##id, nullptr}
-static PropDef kProps[] = { ENT(C01), ENT(C02), ENT(C03), ENT(C04), ENT(C05), ENT(C06), ENT(C07), ENT(C08), ENT(C09), ENT(C10), ENT(C11), ENT(C12), ENT(C13), ENT(C16), ENT(C17) };
-static const char **kRules[] = { &ntC01, &ntC02, &ntC03, &ntC04, &ntC05, &ntC06, &ntC07, &ntC08, &ntC09, &ntC10, &ntC11, &ntC12, &ntC13, &ntC16, &ntC17 };
+static PropDef kProps[] = { ENT(C01), ENT(C02), ENT(C03), ENT(C04), ENT(C05), ENT(C06), ENT(C07), ENT(C08), ENT(C09), ENT(C10), ENT(C11), ENT(C12), ENT(C13), ENT(C14), ENT(C15), ENT(C16), ENT(C17) };
+static const char **kRules[] = { &ntC01, &ntC02, &ntC03, &ntC04, &ntC05, &ntC06, &ntC07, &ntC08, &ntC09, &ntC10, &ntC11, &ntC12, &ntC13, &ntC14, &ntC15, &ntC16, &ntC17 };
 const PropDef *findProp(const std::string &id) {
     size_t n = sizeof(kProps) / sizeof(kProps[0]);
     for (size_t i = 0; i < n; ++i) if (id == kProps[i].id) { kProps[i].ntRule = *kRules[i]; return &kProps[i]; }
